@@ -459,67 +459,73 @@ def _check_derived(repo, res, cls):
 
 
 def check_closures(repo, res):
-    """the shaping closures of compileExprAndFormat: 'vec' -> flattened a(*x), 'mat' -> a(*x) unchanged;
-    auto-detection only when no type was given"""
+    """compileExprAndFormat, interpreted for every (expression shape, requested output type, back-end kind): the function it returns
+    gives the compiled expression's values flattened for 'vec', with the expression's own 2-d shape for 'mat'; with no type requested
+    a vector iff the expression has a single row or column; an explicit type is never overridden; unknown types are rejected"""
+    from ..core.absint import Abs, Obj, Raised
+    from ..core.algebra import Undecided
+    from ..core.numarr import NumArr, num_summaries
     f = repo.func(M.M_UTILS, "compileCode.compileExprAndFormat")
-    cfg, df = cfg_of(f), dataflow_of(f)
-    ot = "outType"
-    if ot not in f.params:
+    if "outType" not in f.params:
         raise AnalysisError("compileExprAndFormat lost outType")
-    # auto-detect only under `outType is None`
-    autos = [d for d in df.defs if d.name == ot and d.kind == "assign"]
-    ok = True
-    for d in autos:
-        gs = [(norm(t.ast.test), o) for t, o in cfg.guards_of(d.node) if isinstance(t.ast, ast.If)]
-        if not any(g in ("%s is None" % ot, "%s == None" % ot) and o is True for g, o in gs):
-            ok = False
-    res.check(ok, "R-SHAPE", f, "explicit-type-respected", "an explicit outType is never overridden",
-              "outType is reassigned outside the `outType is None` branch: registrations with oT='mat' are ignored",
-              node=autos[0].stmt if autos else f.node)
-    n_cl = 0
-    for r in C.returns_of(f):
-        v = r.ast.value
-        if not isinstance(v, ast.Lambda):
-            continue
-        gs = [(norm(t.ast.test), o) for t, o in cfg.guards_of(r) if isinstance(t.ast, ast.If)]
-        kind = None
-        for g, o in gs:
-            if o is True and '"vec"' in g.replace("'", '"'):
-                kind = "vec"
-            if o is True and '"mat"' in g.replace("'", '"'):
-                kind = "mat"
-        if kind is None:
-            continue
-        n_cl += 1
-        body = v.body
-        arg = v.args.args[0].arg
-        # peel: outermost flatten?
-        flat = False
-        inner = body
-        if isinstance(inner, ast.Call) and isinstance(inner.func, ast.Attribute) and inner.func.attr in ("ravel", "flatten") and not inner.args:
-            flat = True
-            inner = inner.func.value
-        # np.array(a(*x).tolist(), float)
-        if isinstance(inner, ast.Call) and dotted(inner.func) in ("np.array", "np.asarray") and inner.args:
-            inner = inner.args[0]
-            if isinstance(inner, ast.Call) and isinstance(inner.func, ast.Attribute) and inner.func.attr == "tolist":
-                inner = inner.func.value
-        core_ok = isinstance(inner, ast.Call) and isinstance(inner.func, ast.Name) and len(inner.args) == 1 \
-            and isinstance(inner.args[0], ast.Starred) and norm(inner.args[0].value) == arg and not inner.keywords
-        callee_ok = False
-        if core_ok:
-            d = df.single_def(r, inner.func.id)
-            callee_ok = d is not None and isinstance(d.value, ast.Call) and is_self_attr(d.value.func, "compileExpr") and d.slot == (0,)
-        tag = "closure(%s)#%d" % (kind, n_cl)
-        if kind == "vec":
-            res.check(core_ok and callee_ok and flat, "R-SHAPE", f, tag, "'vec' closure = compiled(*x) flattened",
-                      "'vec' closure is `%s`: expected the compiled function applied to *x and flattened" % norm(body), node=r.ast)
-        else:
-            res.check(core_ok and callee_ok and not flat, "R-SHAPE", f, tag, "'mat' closure = compiled(*x) unchanged",
-                      "'mat' closure is `%s`: expected the compiled function applied to *x with its shape untouched" % norm(body), node=r.ast)
-    res.floor("shaping closures", n_cl, 4)
-    # auto rule itself: vec iff a dimension is 1
-    numRow = [d for d in df.defs if d.kind == "assign" and norm(d.value) in ("inputExpr.rows", "inputExpr.shape[0]")]
-    numCol = [d for d in df.defs if d.kind == "assign" and norm(d.value) in ("inputExpr.cols", "inputExpr.shape[1]")]
-    res.check(bool(numRow) and bool(numCol), "R-SHAPE", f, "auto-dims", "auto-detection reads rows/cols of the expression",
-              "auto-detection no longer reads the expression's rows/cols")
+
+    class Expr:
+        _abs_native = True
+
+        def __init__(self, r, c):
+            self.rows, self.cols, self.shape = r, c, (r, c)
+
+    class SymLike:
+        """what a lambdified sympy matrix returns on the non-numpy back-ends: an object with tolist()"""
+        _abs_native = True
+
+        def __init__(self, rows):
+            self._rows = rows
+
+        def tolist(self):
+            return [list(r) for r in self._rows]
+    bad, n = [], 0
+    shapes = [(3, 1), (1, 3), (2, 3), (3, 3), (1, 1), (2, 1)]
+    for (r, c) in shapes:
+        for ot in (None, "vec", "Vec", "mat", "MAT", "tensor"):
+            for ctype in ("np", "mpmath"):
+                def compiled(*x, _r=r, _c=c, _ct=ctype):
+                    rows = [[100 * i + 10 * j + x[0] for j in range(_c)] for i in range(_r)]
+                    return NumArr(rows) if _ct == "np" else SymLike(rows)
+
+                def compile_expr(me_, inputSymb=None, inputExpr=None, backend=None, compileType=False, *a, **k):
+                    fn = ("py", compiled)
+                    return (fn, ctype) if compileType else fn
+                summ = dict(num_summaries())
+                summ["compileCode.compileExpr"] = compile_expr
+                me = Obj("compileCode")
+                ab = Abs({}, {}, summ, me, {}, budget=20000)
+                ab.class_methods = {"compileExpr"}
+                tag = "shape %dx%d, outType=%r, back-end %s" % (r, c, ot, ctype)
+                try:
+                    kind, out = ab.run_function(f.node, {"inputSymb": ["s"], "inputExpr": Expr(r, c), "outType": ot})
+                    if ot == "tensor":
+                        n += 1
+                        if kind != "raise":
+                            bad.append("%s: an unknown output type is accepted" % tag)
+                        continue
+                    if kind != "return":
+                        bad.append("%s: raises %s" % (tag, out))
+                        continue
+                    val = ab.apply(out, [[7]], {})
+                except Undecided as e:
+                    res.undecided("R-SHAPE", f, "closures", "outside the modelled subset: %s" % e)
+                    return
+                except Raised as e:
+                    bad.append("%s: the returned function raises %s" % (tag, e.exc))
+                    continue
+                n += 1
+                want_vec = (ot is None and (r == 1 or c == 1)) or (ot is not None and ot.lower() == "vec")
+                rows = [[100 * i + 10 * j + 7 for j in range(c)] for i in range(r)]
+                want = [v for row in rows for v in row] if want_vec else rows
+                got = val.tolist() if isinstance(val, NumArr) else val
+                if got != want:
+                    bad.append("%s: the evaluator returns %s, expected %s (%s)" % (tag, got, want, "flattened vector" if want_vec else "matrix with the expression's shape"))
+    res.check(not bad, "R-SHAPE", f, "closures", "%d (shape, output type, back-end) cases: 'vec' = values flattened, 'mat' = values in the expression's 2-d shape, "
+              "default = vector iff one row or column, explicit type respected, unknown type rejected" % n, "; ".join(bad[:3]), node=f.node)
+    res.floor("shaping cases interpreted", n, 60)
